@@ -2,8 +2,8 @@
 from ..rules import folds
 from .common import declare
 
-RULES = ['CARRY-PLUMB', 'EWM-ROWS', 'DECAY-UNREACHABLE', 'FOLD-DERIVE']
-FLOORS = {'CARRY-PLUMB': 9, 'EWM-ROWS': 1, 'DECAY-UNREACHABLE': 3}
+RULES = ['CARRY-PLUMB', 'EWM-ROWS', 'DECAY-UNREACHABLE', 'FOLD-DERIVE', 'CTOR-COPY']
+FLOORS = {'CARRY-PLUMB': 11, 'EWM-ROWS': 1, 'DECAY-UNREACHABLE': 3, 'CTOR-COPY': 3}
 
 META = {
     'level': "Static analysis of the carry-over plumbing only - the part of the property that is order and identity, not numbers: in "
@@ -13,8 +13,12 @@ META = {
              "the cumulative carry untouched, and both are folded with returns_state=True and the right initial carry "
              "(CARRY-PLUMB, on let-normal forms); an Expanding window never decays (DECAY-UNREACHABLE); every carried state derives "
              "from the previous one (FOLD-DERIVE); a per-row operation emits a row per row (EWM-ROWS: today EWMean does not - known "
-             "finding). NOT decided: how many rows the rolling carry must keep (the slice bound: several values are correct), the "
-             "EWMean recurrence, and anything pandas computes.",
+             "finding); a window object derived from another (column selection, arithmetic, .index, reset_index) keeps its kind and "
+             "its configuration (CTOR-COPY: an Expanding must not turn into a row window). Of the slice bound of the rolling carry only "
+             "the spelling is decided: a row cut counts from the end (iloc[-window:], never len(df) - window, which goes negative while "
+             "fewer than `window` rows were seen), a time cut is measured from the newest row of the whole frame (never of the trimmed "
+             "result or the batch, which is NaT for an empty batch); an unknown spelling is refused (exit 2). NOT decided: whether "
+             "`window` rows are enough for every aggregation, the EWMean recurrence, and anything pandas computes.",
     'note': "Trusted lemma: a pandas rolling/cumulative operation on concat([carry, batch]) yields for the rows of the batch what "
             "it yields in one pass, provided the carry is long enough - the length itself is not decided here.",
     'technique': "static analysis: idiom facts on symbolic (let-)normal forms of every path (CARRY-PLUMB, EWM-ROWS) + the fold rules "
@@ -24,9 +28,10 @@ META = {
 
 def run(ctx, R):
     R.explanation = 'Carry-over plumbing of rolling / cumulative / expanding / ewm operations.'
-    R.not_decided = ['the number of rows the rolling carry keeps (slice bound)', 'the EWMean recurrence', 'numeric equality with pandas']
+    R.not_decided = ['whether the rows the rolling carry keeps suffice for every aggregation', 'the EWMean recurrence', 'numeric equality with pandas']
     declare(R, folds.RULES, RULES, FLOORS)
     R.run(folds.check_carry_plumb, ctx, R)
     R.run(folds.check_ewm_rows, ctx, R)
     R.run(folds.check_decay_unreachable, ctx, R)
     R.run(folds.check_fold_derive, ctx, R, steps=('on_new',))
+    R.run(folds.check_ctor_copy, ctx, R)
